@@ -85,6 +85,7 @@ def check(ctx):
     ctx.rule("R1", "every production of subproc_atom has an action that assigns the delivery mode on every path, and each source form has the documented (helper, mode) pair; the assembler applies exactly one wrapper per mode", floor=25)
     ctx.rule("R2", "values containing an @()/$() part are not globbed, expanded or split again on their way to the argument list", floor=2)
     ctx.rule("R3", "@$() output is split with the shell lexer only", floor=2)
+    ctx.rule("R6", "the `$VAR` expansion of non-raw literals is one positional pass over the references of the original text", floor=2)
     ctx.rule("R5", "alias resolution only copies the user's arguments: no call other than a copy, the alias invocation or the recursion receives them; every list result carries them, behind the alias's own words", floor=10)
     ctx.rule("R4", "the argv hand-off in SubprocSpec only copies: the command list is written by the known resolvers and none of them (nor the stage constructors) splits, globs or expands an element", floor=8)
 
@@ -364,6 +365,89 @@ def check(ctx):
             ctx.ob("R5", site, f"`{short(r, 70)}` carries the user's arguments", mentions(r.value, tracked | result_vars), key=f"{q}|args-dropped-at-return", where=loc(r))
         if n_flow < 3:
             raise AnalysisError(f"{site}: only {n_flow} flows of the user's arguments found")
+
+    # ------------------------------------------------------------------ R6
+    # the documented `$VAR` expansion of non-raw literals is ONE pass over the references of the original
+    # text: every reference is replaced at its own position.  A substitution that *searches* for the
+    # reference text in the partly expanded string (`str.replace`, `re.sub` per match) re-interprets values
+    # that happen to contain reference-looking text, and misses references behind a longer unknown name.
+    tl = ctx.repo.module("xonsh/tools.py")
+    ev = tl.func("expandvars")
+    n6 = 0
+    for loop in [n for n in walk_local(ev) if isinstance(n, ast.For)]:
+        it = loop.iter
+        rev = False
+        while isinstance(it, ast.Call) and call_name(it) in ("reversed", "list", "tuple") and it.args:
+            rev = rev or call_name(it) == "reversed"
+            it = it.args[0]
+        if not (isinstance(it, ast.Call) and last_attr(it) == "finditer" and it.args and isinstance(it.args[0], ast.Name)):
+            continue
+        S = it.args[0].id
+        m = loop.target.id if isinstance(loop.target, ast.Name) else None
+        ldefs = df.all_defs(ev)
+        n6 += 1
+        # (1) no content search on the scanned string inside the loop
+        searches = [c for c in calls_in(loop, local=False) if isinstance(c.func, ast.Attribute) and c.func.attr in ("replace", "sub", "subn", "split", "partition", "find", "index") and (unparse(c.func.value) == S or any(unparse(a_) == S for a_ in c.args))]
+        ctx.ob("R6", "xonsh/tools.py:expandvars", f"inside the loop over the references of `{S}` the text is not searched again (str.replace / re.sub of the matched text substitutes the first look-alike, not this reference)", not searches, key="expandvars|search-based-substitution", where=loc(searches[0]) if searches else loc(loop), detail=short(searches[0], 60) if searches else None)
+        # (2) every rebuild of the string is a positional splice S[:a] + value + S[b:], a/b from the match span
+        span_names = set()
+        for n_, ds_ in ldefs.items():
+            for d_ in ds_:
+                v_ = d_.value
+                if v_ is not None and isinstance(v_, ast.Call) and isinstance(v_.func, ast.Attribute) and unparse(v_.func.value) == m and v_.func.attr in ("span", "start", "end"):
+                    span_names.add(n_)
+        rebuilds = [n for n in walk_local(loop) if isinstance(n, ast.Assign) and any(is_name(t, S) for t in n.targets)]
+        shift_vars = set()
+        for rb in rebuilds:
+            v = rb.value
+            parts = []
+
+            def flat_add(e):
+                if isinstance(e, ast.BinOp) and isinstance(e.op, ast.Add):
+                    flat_add(e.left)
+                    flat_add(e.right)
+                else:
+                    parts.append(e)
+
+            flat_add(v)
+            ok = len(parts) == 3 and all(isinstance(x, ast.Subscript) and is_name(x.value, S) and isinstance(x.slice, ast.Slice) for x in (parts[0], parts[2])) and parts[0].slice.lower is None and parts[2].slice.upper is None and parts[0].slice.upper is not None and parts[2].slice.lower is not None
+            extra = []
+            if ok:
+                for bound in (parts[0].slice.upper, parts[2].slice.lower):
+                    names = df.names_read(bound)
+                    if not (names & span_names) and not any(isinstance(x, ast.Call) and unparse(x.func.value if isinstance(x.func, ast.Attribute) else x.func) == m for x in ast.walk(bound)):
+                        ok = False
+                    extra.append(names - span_names - {m})
+                if ok and not rev:
+                    # forward iteration: both bounds carry the same running offset correction
+                    ok = bool(extra[0]) and extra[0] == extra[1] and len(extra[0]) == 1
+                    shift_vars |= extra[0] if ok else set()
+                elif ok and rev:
+                    ok = not extra[0] and not extra[1]
+            ctx.ob("R6", "xonsh/tools.py:expandvars", f"`{short(rb, 70)}` rebuilds the text by splicing at the reference's own span" + ("" if rev else ", both bounds corrected by the same running offset"), ok, key="expandvars|non-positional-rebuild", where=loc(rb))
+        # (3) the running offset is advanced by the change of length after every splice
+        for sv in sorted(shift_vars):
+            ups = [n for n in walk_local(loop) if (isinstance(n, ast.Assign) and any(is_name(t, sv) for t in n.targets)) or (isinstance(n, ast.AugAssign) and is_name(n.target, sv))]
+            lcfg = CFG(loop.body)
+            okk = bool(ups)
+            for rb in rebuilds:
+                for rn in lcfg.nodes_of(rb):
+                    o_, _p = lcfg.must_pass([rn], lambda m_: any(m_.ast is u for u in ups), exits=("exit",))
+                    okk = okk and o_
+            # shape: new = old + len(S) - <len before>   |   old += len(value) - (end - start)
+            for u in ups:
+                val = u.value
+                txt = unparse(val)
+                lens_before = names_defined_by(ev, lambda v_: unparse(v_) == f"len({S})", ldefs)
+                shape = (isinstance(u, ast.Assign) and any(txt == f"{sv} + len({S}) - {lb}" for lb in lens_before)) or (isinstance(u, ast.AugAssign) and isinstance(u.op, ast.Add) and any(txt == f"len({S}) - {lb}" for lb in lens_before))
+                okk = okk and shape
+            ctx.ob("R6", "xonsh/tools.py:expandvars", f"after every splice the running offset `{sv}` grows by the change of the text's length", okk, key="expandvars|offset-not-advanced", where=loc(loop))
+        if not rebuilds:
+            raise AnalysisError("xonsh/tools.py:expandvars: the reference loop never rebuilds the text")
+    if n6 == 0:
+        # no match loop at all: accepted only if the whole substitution is one re.sub with a callback (positional by construction)
+        subs = [c for c in calls_in(ev) if isinstance(c.func, ast.Attribute) and c.func.attr == "sub" and len(c.args) >= 2 and not isinstance(c.args[0], ast.Constant)]
+        ctx.ob("R6", "xonsh/tools.py:expandvars", "references are substituted in one positional pass (match loop with span splicing, or a single regex.sub with a callback)", bool(subs), key="expandvars|no-positional-pass", where=loc(ev))
 
 
 def _mode_on_path(fn, path):
